@@ -2,6 +2,7 @@ import XModel.ManagerFrame
 import XModel.Sched2
 import XModel.ManagerC18
 import XModel.ManagerC18Fn
+import XModel.ManagerC18Multi
 import XProofs.Properties.C01
 /-!
 # C18 — a failure in the middle of an update is reported and fully recoverable
@@ -79,6 +80,29 @@ theorem C18_recover_function_tasks (sched1 sched2 : Sched) (s : MState) (p : Pat
     (hok : setValue sched2 { (setValue sched1 { s with faultIn := k } p v).1 with faultIn := none } p v = (s', none)) :
     ConsistentF s' :=
   setValue_recoverF sched1 sched2 s p v k hi hnodef sc hvs1 hvs2 hc s' hok
+
+/-- **several faulty updates in a row, then a fault-free repeat**: any number of attempts to assign the plain location
+    `p`, each with its own value, its own legal schedule and its own fault point (`faultIn`: cut anywhere, also inside a
+    function body, or not at all), leave the damage confined to the tasks the assignment triggers; the final fault-free
+    repeat under any legal schedule, when it completes, leaves every definition and every line of every function body
+    holding, with the task table and indices untouched -/
+theorem C18_recover_after_several_faults (s : MState) (p : Path) (l : List (Sched × Option Nat × Val)) (sched' : Sched)
+    (v : Val) (hi : MInv s) (hc : ConsistentF s) (sc : ScopeF s p) (hnodef : lookDef s.defs p = none)
+    (hvs : ∀ a ∈ l, ValidSched (gOf s.idx) (findTaskids s.idx (chainR p)) (a.1 (findTaskids s.idx (chainR p))))
+    (hvs' : ValidSched (gOf s.idx) (findTaskids s.idx (chainR p)) (sched' (findTaskids s.idx (chainR p))))
+    (s' : MState) (hok : setValue sched' { attemptsS s p l with faultIn := none } p v = (s', none)) :
+    ConsistentF s' ∧ s'.defs = s.defs ∧ s'.idx = s.idx ∧ s'.frozen = s.frozen :=
+  setValue_recoverF_multiS s p l sched' v hi hc sc hnodef hvs hvs' s' hok
+
+/-- the expression-task form, in C01's vocabulary -/
+theorem C18_recover_after_several_faults_expr (sched sched' : Sched) (s : MState) (p : Path)
+    (l : List (Option Nat × Val)) (v : Val) (hi : MInv s) (hc : Consistent s) (sc : Scope s p)
+    (hnodef : lookDef s.defs p = none)
+    (hvs : ValidSched (gOf s.idx) (findTaskids s.idx (chainR p)) (sched (findTaskids s.idx (chainR p))))
+    (hvs' : ValidSched (gOf s.idx) (findTaskids s.idx (chainR p)) (sched' (findTaskids s.idx (chainR p))))
+    (s' : MState) (hok : setValue sched' { attempts sched s p l with faultIn := none } p v = (s', none)) :
+    Consistent s' ∧ s'.defs = s.defs ∧ s'.idx = s.idx ∧ s'.frozen = s.frozen :=
+  setValue_recover_multi sched sched' s p l v hi hc sc hnodef hvs hvs' s' hok
 
 /-- whatever a run does — completes, faults, meets an evaluation error — it changes the containers only at locations
     comparable with the assigned one or with a target of a triggered expression / function task -/
